@@ -17,6 +17,22 @@ def run_model(steps):
         elif op == 'G':
             parts = arg.split('@'); state = snaps[int(parts[1])] if len(parts) > 1 else cur
             exp[n] = ('val:' + (state[parts[0]] or '-')) if parts[0] in state else 'notfound'
+        elif op == 'U':
+            spec, snapspec = (arg.split('@') + [None])[:2]
+            pat, tgt = spec.split(':')
+            state = snaps[int(snapspec)] if snapspec is not None else cur
+            items = sorted(state.items(), key=lambda kv: bytes.fromhex(kv[0]))
+            pos, out = None, []
+            for o in pat.split('.'):
+                if o == 'first': pos = 0 if items else None
+                elif o == 'last': pos = len(items) - 1 if items else None
+                elif o == 'seek':
+                    c = [i for i, kv in enumerate(items) if bytes.fromhex(kv[0]) >= bytes.fromhex(tgt)]; pos = c[0] if c else None
+                elif pos is None: break
+                elif o == 'next': pos = pos + 1 if pos + 1 < len(items) else None
+                elif o == 'prev': pos = pos - 1 if pos - 1 >= 0 else None
+                out.append('none' if pos is None else '%s:%s' % (items[pos][0] or '-', items[pos][1] or '-'))
+            exp[n] = 'cursor:' + ','.join(out)
         elif op in ('I', 'J'):
             parts = arg.split('@'); state = snaps[int(parts[1])] if len(parts) > 1 else cur
             items = sorted(state.items(), key=lambda kv: bytes.fromhex(kv[0]), reverse=(op == 'J'))
